@@ -70,3 +70,30 @@ VARIANTS = [
       "        self.__collect = False\n        self.__equations = equations",
       "silent"),
 ]
+
+VARIANTS += [
+    V("initialize-clears-df-twice", O,
+      "        if self.__collection_sc is not None:\n"
+      "            self.__collection_sc.clear()\n",
+      "        if self.__collection_sc is not None:\n"
+      "            self.__collection_df.clear()\n", "fire", "D11.6",
+      "seed C11-initialize-clears-df-twice"),
+    V("initialize-no-set-raw", O,
+      "            self.__collection_sc.clear()\n        self.set_raw()\n",
+      "            self.__collection_sc.clear()\n", "fire", "D11.6"),
+    V("initialize-clears-only-when-collecting", O,
+      "        if self.__collection_df is not None:\n"
+      "            self.__collection_df.clear()\n",
+      "        if self.__collect:\n"
+      "            self.__collection_df.clear()\n", "fire", "D11.6",
+      "in model mode the flag is off and the list would survive"),
+    V("silent-initialize-cross-guards", O,
+      "        if self.__collection_df is not None:\n"
+      "            self.__collection_df.clear()\n"
+      "        if self.__collection_sc is not None:\n"
+      "            self.__collection_sc.clear()\n",
+      "        if self.__collection_sc is not None:\n"
+      "            self.__collection_df.clear()\n"
+      "            self.__collection_sc.clear()\n", "silent", "",
+      "both lists are None under the same constructor condition"),
+]
